@@ -178,36 +178,44 @@ def setException (c : Conn P) (e : Exc) : Conn P :=
 /-- `BaseConnector._release` for this protocol (`explicit` = `should_close=True`, i.e.
 `Connection.close()`).  Returns the connection closed or pooled at time `now`. -/
 def releaseCore (closeFn : Conn P → Conn P) (c : Conn P) (now : Nat) (forceClose explicit : Bool) : Conn P :=
-  let c := { c with owner := none }
-  if forceClose || explicit || c.shouldCloseProp then closeFn c
-  else { c with pooled := some now }
+  if forceClose || explicit || c.shouldCloseProp then closeFn { c with owner := none }
+  else { c with owner := none, pooled := some now }
+
+/-- `payload.feed_data(bs)` on the stream being filled -/
+def evData (c : Conn P) (bs : Bytes) : Conn P :=
+  match c.cur with
+  | some p => c.modPay p (fun y => { y with data := y.data ++ bs, prov := c.ptags })
+  | none => c
+
+/-- `payload.feed_eof()`: mark eof; second component: an eof callback was registered -/
+def evEofMark (c : Conn P) : Conn P × Bool :=
+  match c.cur with
+  | some p =>
+    ({ c.modPay p (fun y => { y with eof := true, cb := false, prov := c.ptags }) with cur := none },
+     match c.pays[p]? with | some y => y.cb | none => false)
+  | none => (c, false)
+
+/-- `set_exception(payload, …)` by the parser -/
+def evPerr (c : Conn P) : Conn P :=
+  match c.cur with
+  | some p => { c.payFail p .payload with cur := none }
+  | none => c
 
 /-- the calls a parser makes on its streams at `feed_eof` / the events of one `feed_data`;
-`rel` = what the eof callback of the held response does (release the connection).  Returns
-the new state and whether the callback released the connection. -/
+`rel` = what the eof callback of the held response does (release the connection;
+`ClientResponse._response_eof` does nothing when the protocol is upgraded).  Returns the new
+state and whether the callback released the connection. -/
 def applyEvCore (rel : Conn P → Conn P) (c : Conn P) (released : Bool) (msgs : List (Msg × Option Nat)) :
     PEv → Conn P × Bool × List (Msg × Option Nat)
   | .msg m true =>
-    let p := c.pays.length
-    ({ c with pays := c.pays ++ [{ ex := c.owner, prov := c.ptags }], cur := some p }, released, msgs ++ [(m, some p)])
+    ({ c with pays := c.pays ++ [{ ex := c.owner, prov := c.ptags }], cur := some c.pays.length }, released,
+     msgs ++ [(m, some c.pays.length)])
   | .msg m false => ({ c with cur := none }, released, msgs ++ [(m, none)])
-  | .data bs =>
-    match c.cur with
-    | some p => (c.modPay p (fun y => { y with data := y.data ++ bs, prov := c.ptags }), released, msgs)
-    | none => (c, released, msgs)
+  | .data bs => (evData c bs, released, msgs)
   | .eof =>
-    match c.cur with
-    | some p =>
-      let fire := match c.pays[p]? with | some y => y.cb | none => false
-      let c := c.modPay p (fun y => { y with eof := true, cb := false, prov := c.ptags })
-      let c := { c with cur := none }
-      -- `ClientResponse._response_eof`: nothing when the protocol is upgraded
-      if fire && !c.upgraded then (rel c, true, msgs) else (c, released, msgs)
-    | none => (c, released, msgs)
-  | .perr =>
-    match c.cur with
-    | some p => ({ c.payFail p .payload with cur := none }, released, msgs)
-    | none => (c, released, msgs)
+    if (evEofMark c).2 && !(evEofMark c).1.upgraded then (rel (evEofMark c).1, true, msgs)
+    else ((evEofMark c).1, released, msgs)
+  | .perr => (evPerr c, released, msgs)
 
 def applyEvsCore (rel : Conn P → Conn P) : Conn P → Bool → List (Msg × Option Nat) → List PEv →
     Conn P × Bool × List (Msg × Option Nat)
@@ -219,19 +227,27 @@ def applyEvsCore (rel : Conn P → Conn P) : Conn P → Bool → List (Msg × Op
 /-- the `connection_lost` that follows once the transport is gone.  `os` = lost with an
 `OSError`; `clean` = `exc is None`. The eof callback cannot pool a dead connection:
 `rel` is release-with-close. -/
+def lostFeed (c : Conn P) : Conn P × Bool × Bool :=
+  match c.parser with
+  | some s =>
+    let r := applyEvsCore (fun c => { c with owner := none }) c false [] (P.feedEof s).1
+    (r.1, (P.feedEof s).2, r.2.1)
+  | none => (c, false, false)
+
+/-- `feed_eof()` raised: `set_exception(self._payload, ClientPayloadError)` -/
+def lostFail (c : Conn P) (raised : Bool) : Conn P :=
+  if raised then (match c.payload with | some p => c.payFail p .payload | none => c) else c
+
+/-- `if not self.is_eof(): self.set_exception(ServerDisconnectedError / ClientOSError)` -/
+def lostExc (c : Conn P) (os : Bool) : Conn P :=
+  if !c.qeof then c.setException (if os then .os else .disconnected) else c
+
+def lostEnd (c : Conn P) : Conn P :=
+  { c with shouldClose := true, parser := none, payload := none, cur := none, connected := false, pooled := none }
+
 def lostCore (c : Conn P) (os : Bool) : Conn P × Bool :=
-  -- parser.feed_eof()
-  let (c, raised, released) :=
-    match c.parser with
-    | some s =>
-      let (evs, raised) := P.feedEof s
-      let (c, released, _) := applyEvsCore (fun c => { c with owner := none }) c false [] evs
-      (c, raised, released)
-    | none => (c, false, false)
-  let c := if raised then (match c.payload with | some p => c.payFail p .payload | none => c) else c
-  let c := if !c.qeof then c.setException (if os then .os else .disconnected) else c
-  ({ c with shouldClose := true, parser := none, payload := none, cur := none, connected := false, pooled := none },
-   released)
+  let r := lostFeed c
+  (lostEnd (lostExc (lostFail r.1 r.2.1) os), r.2.2)
 
 /-- `ResponseHandler.close()` followed by the transport's `connection_lost(None)` -/
 def protoClose (c : Conn P) : Conn P :=
@@ -294,7 +310,7 @@ def setResponseParams (c : Conn P) (now : Nat) (forceClose : Bool) (skip : Bool)
     let data := c.tail
     let tags := c.tailTags
     dataReceived { c with tail := [], tailTags := [] } now forceClose data tags
-  else (c, false)
+  else ({ c with tailTags := [] }, false)
 
 /-- the test `BaseConnector._get` applies to a pooled entry (`fix`: also `not should_close`,
 extended by the parser's buffered bytes) -/
